@@ -499,7 +499,7 @@ pub fn worker(wi: usize, wn: usize, tier: &str) {
 
 fn run_server_slice(tier: &str) -> Result<Value, String> {
     let bin = std::env::var("SRVMC_BIN").map_err(|_| "SRVMC_BIN not set (run through bin/check)".to_string())?;
-    let out = std::process::Command::new(&bin).arg("C18S").arg(tier).env_remove("LD_PRELOAD").output().map_err(|e| format!("cannot run {bin}: {e}"))?;
+    let out = vcore::par::output_retry(std::process::Command::new(&bin).arg("C18S").arg(tier).env_remove("LD_PRELOAD")).map_err(|e| format!("cannot run {bin}: {e}"))?;
     let stdout = String::from_utf8_lossy(&out.stdout);
     let line = stdout.lines().find_map(|l| l.strip_prefix("C18S-RESULT ")).ok_or_else(|| format!("no result line; exit {:?}; stderr: {}", out.status.code(), String::from_utf8_lossy(&out.stderr)))?;
     serde_json::from_str(line).map_err(|e| format!("bad result: {e}"))
